@@ -38,6 +38,27 @@ func TestStats(t *testing.T) {
 	defer st.Flush()
 	rapid.Check(t, func(t *rapid.T) {
 		sc := compose.GenScenario(t, cfg.Opts(t))
+		// half of the scenarios get a retry policy outermost that retries rejections too, and start with the rejecting
+		// policies already saturated (open breaker, bulkhead permits taken, limiter permits used): attempts that are
+		// rejected before reaching the function, followed by further attempts, are this property's interesting part
+		if rapid.Bool().Draw(t, "rejectionProfile") && len(sc.Stack) > 0 {
+			sc.Pool = append(sc.Pool, compose.Inst{Kind: "retry", MaxRetries: rapid.IntRange(1, 3).Draw(t, "outerRetries")})
+			sc.Stack = append([]int{len(sc.Pool) - 1}, sc.Stack...)
+			var pre []compose.Step
+			for i, in := range sc.Pool {
+				switch in.Kind {
+				case "bulkhead":
+					for k := 0; k < in.Max; k++ {
+						pre = append(pre, compose.Step{Op: "bh-take", Target: i})
+					}
+				case "breaker":
+					pre = append(pre, compose.Step{Op: "cb-op", Target: i, CbOp: "open"})
+				case "limiter":
+					pre = append(pre, compose.Step{Op: "rl-take", Target: i, N: 1})
+				}
+			}
+			sc.Steps = append(pre, sc.Steps...)
+		}
 		// bias towards the entry points that hand the Execution to the function
 		for i := range sc.Steps {
 			if sc.Steps[i].Op == "exec" && rapid.Bool().Draw(t, "withExec") {
